@@ -648,9 +648,15 @@ class InspectFunction(object):
         body_sig = dds_hash(class_body_lines)
         # All the sub-dependencies are handled with method introspections
 
-        return_sig = dds_hash_commut(
-            [(_hash_key_body_sig, body_sig)] + _fis_to_siglist(method_fis)
-        )
+        return_sig: Optional[PyHash]
+        if method_fis:
+            return_sig = dds_hash_commut(
+                [(_hash_key_body_sig, body_sig)] + _fis_to_siglist(method_fis)
+            )
+        else:
+            # No method carries the binding of the constructor's arguments (NamedTuple / dataclass style):
+            # it is part of the signature of the class itself.
+            return_sig = _build_return_sig(body_sig, arg_ctx, {}, [], {}, {})
         assert return_sig is not None
 
         return FunctionInteractions(
